@@ -115,15 +115,14 @@ def job_fir_poly(res, cplx, nh, n1, n2):
     cn = [f'c{i}' for i in range(nh * w)]; xn = [f'x{i}' for i in range(nx * w)]
     spec = [('pf64', [fsym(s) for s in cn]), ('i32', nh), ('pf64', [fsym(s) for s in xn]), ('i32', n1), ('i32', n2), ('pf64', [0.0] * (nx * w))]
     label = f'FirFilter{"C" if cplx else "R"} taps={nh} frames={n1}+{n2}'
-    m, r, outs, st = lin_or_none(res, fn, spec, label)
+    m, r, outs, st = lin_or_none(res, fn, spec, label, allow_fork=True)
     rnd = random.Random(nh * 100 + nx)
     def cex(why, cv=None, xv=None):
         cv = cv or [rnd.uniform(-1, 1) for _ in cn]; xv = xv or [rnd.uniform(-1, 1) for _ in xn]
         return confirm(res, PID, HARNESS, fn, [('pf64', cv), ('i32', nh), ('pf64', xv), ('i32', n1), ('i32', n2), ('pf64', [0.0] * (nx * w))], 'i32', 'fir', ORACLES,
                        f'fir:{"C" if cplx else "R"}:nh%4={nh % 4}', why, extra={'kind': 'fir', 'cplx': cplx, 'nout': nx})
-    if st != 'ret':
-        if st != 'fork': cex(f'{label}: {st}')
-        return
+    if st == 'fork': job_fir_fork(res, cplx, nh, n1, n2); return      # control flow depends on the taps / data: decided path by path
+    if st != 'ret': cex(f'{label}: {st}'); return
     if r != nx: cex(f'{label}: produced {r} samples'); return
     ys = outs[2][:nx * w]; low = Lower('REAL')
     C = [z3.Real(s) for s in cn]; Xs = [z3.Real(s) for s in xn]
@@ -286,7 +285,95 @@ def job_ma(res, cplx, n, n1, n2):
         xv = [0.0] * len(insyms); xv[j] = 1.0
         if not cex(f'{label}: output {k} has coefficient {float(rows[k].get(insyms[j], 0))} for input {j}, the equal-tap FIR has {float(cols[j][k])}', xv): cex(f'{label}: differs from the equal-tap FIR')
 
-JOBFNS = {'fir_poly': job_fir_poly, 'fftfir': job_fftfir, 'xcorr': job_xcorr, 'ma': job_ma}
+def job_xcorr_auto(res, cplx, n):
+    """one-argument xcorr(x): every lag is extracted as an exact quadratic form in the samples and must be sum_i x[i+lag] conj(x[i]) (coefficients within 64*M*eps)"""
+    mod, so = load(HARNESS); w = 2 if cplx else 1; fn = 'h_xcorr_auto_c' if cplx else 'h_xcorr_auto_r'; nl = 2 * n - 1
+    xn = [f'x{i}' for i in range(n * w)]; label = f'xcorr(x) {"cmplx" if cplx else "real"} n={n}'
+    def cex(why, xv=None):
+        xv = xv or [math.sin(1.0 + 2.3 * i) + 0.1 * i for i in range(n * w)]
+        return confirm(res, PID, HARNESS, fn, [('pf64', xv), ('i32', n), ('pf64', [0.0] * (nl * w))], 'i32', 'auto', ORACLES, f'xcorr:auto:{"C" if cplx else "R"}', why, extra={'cplx': cplx})
+    m = Machine(mod, max_steps=100_000_000)
+    try: r, outs, _ = sym_call(m, fn, [('pf64', [fsym(s_) for s_ in xn]), ('i32', n), ('pf64', [0.0] * (nl * w))], 'i32')
+    except (Throw, UB) as e: res.absorb(m); cex(f'{label}: {type(e).__name__}'); return
+    res.absorb(m)
+    if m.taken: res.inc(f'{label}: data-dependent control flow'); return
+    if r != nl: cex(f'{label}: returned {r} lags instead of {nl}'); return
+    try: polys = poly_forms(outs[1][:nl * w], 2)
+    except (NonLinear, PolyTooBig) as e: res.inc(f'{label}: not a quadratic form ({e})'); return
+    # reference polynomials
+    def mono(a, b): return tuple(sorted((a, b)))
+    M = 1 << (2 * n - 2).bit_length() if n > 1 else 1; tol = Fraction(64 * max(M, 2)) * Fraction(EPS); bad = None
+    for li, lag in enumerate(range(-(n - 1), n)):
+        ref = [{} for _ in range(w)]
+        for i in range(n):
+            if not (0 <= i + lag < n): continue
+            if cplx:
+                ar, ai, br, bi = f'x{2 * (i + lag)}', f'x{2 * (i + lag) + 1}', f'x{2 * i}', f'x{2 * i + 1}'
+                for (u, v, c_, q) in ((ar, br, 1, 0), (ai, bi, 1, 0), (ai, br, 1, 1), (ar, bi, -1, 1)): ref[q][mono(u, v)] = ref[q].get(mono(u, v), 0) + c_
+            else: ref[0][mono(f'x{i + lag}', f'x{i}')] = ref[0].get(mono(f'x{i + lag}', f'x{i}'), 0) + 1
+        for q in range(w):
+            got = polys[w * li + q]; keys = set(got) | set(ref[q])
+            d = max([abs(Fraction(got.get(k_, 0)) - ref[q].get(k_, 0)) for k_ in keys] + [Fraction(0)])
+            if d > tol: bad = (lag, float(d)); break
+        if bad: break
+    sol = z3.Solver(); sol.add(z3.Not(z3.BoolVal(bad is None)))
+    if timed_check(sol, res) == z3.unsat: res.ob(True, 'POLY-ground', f'{label}: every lag is the quadratic form sum_i x[i+lag] conj(x[i]) (coefficients within 64*M*eps) for every input')
+    else: cex(f'{label}: lag {bad[0]} is not sum_i x[i+lag] conj(x[i]) (coefficient off by {bad[1]:.3g})')
+
+def job_fir_fork(res, cplx, nh, n1, n2):
+    """direct FIR whose control flow depends on the TAPS (shortcuts for special coefficient vectors): input concrete, taps symbolic, every explored path: LRA search in the path's region for taps where an
+    output deviates from the defining sum by more than 1e-3 of sum|c| (relative to the taps' own scale)"""
+    mod, so = load(HARNESS); w = 2 if cplx else 1; fn = 'h_fir_c' if cplx else 'h_fir_r'; nx = n1 + n2
+    cn = [f'c{i}' for i in range(nh * w)]; C = [z3.Real(s_) for s_ in cn]; label = f'FirFilter{"C" if cplx else "R"} taps={nh} frames={n1}+{n2} (taps symbolic, input concrete)'
+    for xi, xv in enumerate(([1.0 + 0.25 * i for i in range(nx * w)], [1.0 if i == w * (nx // 2) else 0.0 for i in range(nx * w)])):
+        work = [[]]; seen = 0
+        while work and seen < 40:
+            preset = work.pop(); seen += 1
+            m = Machine(mod, preset=preset, max_steps=50_000_000); yp = m.alloc_doubles([0.0] * (nx * w), 'y')
+            try: r = m.call('@' + fn, [m.alloc_doubles([fsym(s_) for s_ in cn], 'c'), nh, m.alloc_doubles(xv, 'x'), n1, n2, yp])
+            except Infeasible: work.extend(m.pending); continue
+            except (Throw, UB) as e: work.extend(m.pending); res.absorb(m); res.inc(f'{label}: {type(e).__name__} on a path'); continue
+            work.extend(m.pending); res.absorb(m); ys = m.read_doubles(yp, nx * w)
+            try: rows = linear_forms(ys)
+            except NonLinear as e: res.inc(f'{label}: path not linear in the taps ({e})'); continue
+            X = [Fraction(v) for v in xv]
+            # reference rows: coefficient of tap c_k in output i
+            ref = []
+            for i in range(nx):
+                rr = {}; ri = {}
+                for k in range(nh):
+                    if i - k < 0: continue
+                    if cplx:
+                        xr, xim = X[2 * (i - k)], X[2 * (i - k) + 1]
+                        rr[cn[2 * k]] = rr.get(cn[2 * k], 0) + xr; rr[cn[2 * k + 1]] = rr.get(cn[2 * k + 1], 0) + xim
+                        ri[cn[2 * k]] = ri.get(cn[2 * k], 0) + xim; ri[cn[2 * k + 1]] = ri.get(cn[2 * k + 1], 0) - xr
+                    else: rr[cn[k]] = rr.get(cn[k], 0) + X[i - k]
+                ref += [rr, ri] if cplx else [rr]
+            sol = z3.SolverFor('QF_LRA'); sol.set('timeout', 60000); sol.add(*m.pc)
+            T = [z3.Real(f't{j}') for j in range(len(cn))]
+            for t_, c_ in zip(T, C): sol.add(t_ >= c_, t_ >= -c_)
+            S = z3.Sum(T); found = None
+            for k, (row, rf) in enumerate(zip(rows, ref)):
+                keys = set(row) | set(rf); coef = {s_: row.get(s_, 0) - rf.get(s_, 0) for s_ in keys}
+                if all(c_ == 0 for c_ in coef.values()): continue
+                diff = z3.Sum([z3.RealVal(c_) * (z3.Real(s_) if s_ != 1 else z3.RealVal(1)) for s_, c_ in coef.items() if c_ != 0])
+                sol.push(); sol.add(S > 0, z3.Or(diff > S / 1000, -diff > S / 1000)); c = timed_check(sol, res)
+                if c == z3.sat: mdl = model_dict(sol); found = [model_float(mdl, s_, 0.0) for s_ in cn]; sol.pop(); break
+                sol.pop()
+            if found is None: res.ob(True, 'LRA', f'{label} input #{xi}: path with {len(m.taken)} coefficient-dependent decisions: every output within 1e-3 * sum|c| of the defining sum on the whole path region')
+            else:
+                confirm(res, PID, HARNESS, fn, [('pf64', found), ('i32', nh), ('pf64', xv), ('i32', n1), ('i32', n2), ('pf64', [0.0] * (nx * w))], 'i32', 'fir', ORACLES, f'fir:{"C" if cplx else "R"}:coefficient-dependent', f'{label}: on a coefficient-dependent path output {k // w} is not the defining sum', extra={'kind': 'fir', 'cplx': cplx, 'nout': nx}); return
+
+def o_auto(spec, r, extra):
+    cplx = extra['cplx']; w = 2 if cplx else 1; x = [Fraction(v) for v in spec[0][1]]; n = spec[1][1]
+    if r['status'] != 'ok' or r['ret'] == H_THROW: return True, f"xcorr(x): {r['status']} / threw"
+    exp = ref_xcorr(x, x, cplx); got = r['outs'][1][:len(exp)]
+    if r['ret'] * w != len(exp): return True, f"xcorr(x): returned {r['ret']} lags, expected {len(exp) // w}"
+    sc = float(sum(v * v for v in x)) or 1e-300; worst = max([abs(float(Fraction(g) - e)) for g, e in zip(got, exp)] + [0.0])
+    return worst > 1e-9 * sc, f"xcorr(x) ({'complex' if cplx else 'real'}, n={n}): max deviation from sum_i x[i+lag] conj(x[i]) is {worst:.3g}; got {got[:4]}.. expected {[float(e) for e in exp[:4]]}.."
+ORACLES['auto'] = o_auto
+
+JOBFNS = {'xcorr_auto': job_xcorr_auto, 'fir_fork': job_fir_fork, 'fir_poly': job_fir_poly, 'fftfir': job_fftfir, 'xcorr': job_xcorr, 'ma': job_ma}
 
 def selftest(st):
     mod, so = load(HARNESS); calls = []; rnd = random.Random(5)
@@ -322,6 +409,7 @@ def main(tier, seed):
             for n2 in range(1, N + 1):
                 if q and cplx and n1 + n2 > 8: continue
                 jobs.append((f'xcorr c={cplx} {n1},{n2}', 'xcorr', dict(cplx=cplx, n1=n1, n2=n2), 1500))
+        for n in ((1, 2, 3, 4, 5, 6, 9) if q else list(range(1, 13)) + [17, 33]): jobs.append((f'xcorr auto c={cplx} n={n}', 'xcorr_auto', dict(cplx=cplx, n=n), 900))
         for n in ((1, 2, 3, 4, 5) if q else range(1, 9)):
             jobs.append((f'ma c={cplx} n={n}', 'ma', dict(cplx=cplx, n=n, n1=2 * n + 3, n2=0 if cplx else 2), 900))
     jobs.sort(key=lambda j: -(j[2].get('n1', 0) + j[2].get('n2', 0) + 4 * j[2].get('nh', 0)))
